@@ -57,7 +57,12 @@ pub fn c17_case() -> impl Strategy<Value = C17Case> {
 
         (
             prop::collection::vec(dp, n),
-            prop::collection::vec(prop_oneof![2 => Just(DcKind::None), 1 => Just(DcKind::RefOnly), 3 => Just(DcKind::Bits32), 4 => Just(DcKind::Bits64)], n),
+            // half of the networks are DC capable throughout (a non-DC device between DC devices is
+            // a known finding that ends the evaluation of a chain case early)
+            prop_oneof![
+                1 => prop::collection::vec(prop_oneof![1 => Just(DcKind::RefOnly), 3 => Just(DcKind::Bits32), 4 => Just(DcKind::Bits64)], n),
+                1 => prop::collection::vec(prop_oneof![2 => Just(DcKind::None), 1 => Just(DcKind::RefOnly), 3 => Just(DcKind::Bits32), 4 => Just(DcKind::Bits64)], n),
+            ],
             prop::collection::vec(10u32..=2000, n),
             prop::collection::vec(prop_oneof![3 => 0u64..1_000_000_000_000, 1 => any::<u64>()], n),
             prop::collection::vec(prop_oneof![8 => Just(None), 1 => (-3000i32..=100).prop_map(Some)], n),
